@@ -1,7 +1,7 @@
 (** C05, revocation discipline: every log the one-node machine of Model/RevokeLog.v can produce,
     for every operation list (= every behaviour of user, peer, network, persistence completion,
     restart), is accepted by the policy checker [chk_all]; and what acceptance means. *)
-Require Import LdkV.Prim.U64 LdkV.Model.RevokeLog.
+Require Import LdkV.Prim.U64 LdkV.Model.RevokeLog LdkV.Gen.C05Pins.
 Open Scope Z_scope.
 
 Section Proofs.
@@ -12,7 +12,7 @@ Section Proofs.
   Hypothesis point_eqb_eq : forall p q, point_eqb p q = true -> p = q.
 
   Notation ev := (ev secret point).
-  Notation st := (st point).
+  Notation st := (st secret point).
   Notation op := (op secret point).
   Notation pol := (pol point).
   Notation step := (step secret point pub point_eqb).
@@ -20,6 +20,7 @@ Section Proofs.
   Notation chk := (chk secret point pub point_eqb).
   Notation chk_all := (chk_all secret point pub point_eqb).
   Notation restore := (restore secret point).
+  Notation recv_channel_ready := (recv_channel_ready secret point pub point_eqb).
   Notation close := (close secret point).
   Notation maybe_restore := (maybe_restore secret point).
   Notation announced := (announced point point_eqb).
@@ -40,6 +41,10 @@ Section Proofs.
   Lemma announced_cons_mono a kp k p : announced a k p = true -> announced (kp :: a) k p = true.
   Proof. unfold announced. cbn [existsb]. intros ->. apply orb_true_r. Qed.
 
+  (** have the peer's points been shifted by its channel_ready yet? *)
+  Definition ann_phase (s : st) : bool := chan_ready (hsk s) || their_ready (hsk s).
+  Definition has_key (a : list (Z * point)) (k : Z) : bool := existsb (fun kp : Z * point => fst kp =? k) a.
+
   (** the relation between machine state and policy state *)
   Record R (s : st) (g : pol) : Prop := mkR {
     R_hn : holder_next s <= INITIAL - 1;
@@ -48,49 +53,58 @@ Section Proofs.
     R_mpraa : closed s = false -> mp_raa s = true -> holder_next s < INITIAL - 1;
     R_st : closed s = false -> p_st g = cp_next s + 2;
     R_rv : closed s = false -> p_rv g = cp_next s + 2;
-    R_cur : closed s = false ->
+    R_cur : closed s = false -> ann_phase s = true ->
             exists p, cp_cur_point s = Some p /\ announced (p_ann g) (cp_next s + 1) p = true;
-    R_nxt : closed s = false ->
-            exists p, cp_next_point s = Some p /\ announced (p_ann g) (cp_next s) p = true
+    R_nxt : closed s = false -> ann_phase s = true ->
+            exists p, cp_next_point s = Some p /\ announced (p_ann g) (cp_next s) p = true;
+    R_pre : closed s = false -> ann_phase s = false ->
+            cp_next s = INITIAL - 1 /\
+            exists p, cp_next_point s = Some p /\ announced (p_ann g) (cp_next s + 1) p = true;
+    R_keys : closed s = false -> forall k, has_key (p_ann g) k = true ->
+             (if ann_phase s then cp_next s else cp_next s + 1) <= k;
+    (* AwaitingChannelReady never has OUR_CHANNEL_READY together with WAITING_FOR_BATCH or THEIR_CHANNEL_READY *)
+    R_flags : closed s = false -> chan_ready (hsk s) = false -> our_ready (hsk s) = true ->
+              wfb (hsk s) = false /\ their_ready (hsk s) = false
   }.
 
-  Lemma R_init p0 p1 :
-    exists g, chk_all (pol_init point) (init_log secret point p0 p1) = Some g /\ R (init point p0 p1) g.
+  Lemma R_init batch p0 :
+    exists g, chk_all (pol_init point) (init_log secret point p0) = Some g /\ R (init secret point batch p0) g.
   Proof.
-    exists (mkPol point INITIAL (INITIAL + 1) (INITIAL + 1) [(INITIAL - 1, p1); (INITIAL, p0)] false).
+    exists (mkPol point INITIAL (INITIAL + 1) (INITIAL + 1) [(INITIAL, p0)] false).
     split; [reflexivity|].
-    constructor; cbn [init holder_next cp_next mp_raa cp_cur_point cp_next_point closed
-                      p_vh p_st p_rv p_ann p_signed]; intros; try lia; try discriminate.
-    - exists p0. split; [reflexivity|]. replace (INITIAL - 1 + 1) with INITIAL by lia.
-      apply announced_cons_mono, announced_cons_same.
-    - exists p1. split; [reflexivity|]. apply announced_cons_same.
+    constructor; cbn [init holder_next cp_next mp_raa cp_cur_point cp_next_point closed hsk
+                      p_vh p_st p_rv p_ann p_signed]; unfold ann_phase;
+      cbn [init hsk chan_ready their_ready orb]; intros; try lia; try discriminate.
+    - split; [reflexivity|]. exists p0. split; [reflexivity|].
+      replace (INITIAL - 1 + 1) with INITIAL by lia. apply announced_cons_same.
+    - unfold has_key in *. cbn [existsb fst] in *. rewrite orb_false_r in *. lia.
   Qed.
 
   Ltac sf := cbn [holder_next cp_next awaiting_rr disconnected mon_in_progress mp_raa mp_cs raa_first
-                   cp_cur_point cp_next_point closed p_vh p_rv p_st p_ann p_signed fst snd
-                   build_commitment upd_mon set_mp_raa set_mp_cs] in *.
+                   cp_cur_point cp_next_point closed hsk p_vh p_rv p_st p_ann p_signed fst snd
+                   build_commitment upd_mon set_mp_raa set_mp_cs set_hs] in *.
 
   (** R only looks at these components *)
-  Definition core (s : st) := (holder_next s, cp_next s, mp_raa s, cp_cur_point s, cp_next_point s, closed s).
+  Definition core (s : st) := (holder_next s, cp_next s, mp_raa s, cp_cur_point s, cp_next_point s, closed s, hsk s).
 
   Ltac core_eq := unfold core; repeat match goal with x := _ : RevokeLog.st _ |- _ => subst x end; sf; rewrite ?orb_false_r, ?orb_true_r;
     repeat match goal with H : closed _ = false |- _ => rewrite H; clear H end; reflexivity.
 
   Lemma R_core s s' g : core s = core s' -> R s g -> R s' g.
   Proof.
-    unfold core. intros E HR. injection E as E1 E2 E3 E4 E5 E6. destruct HR.
-    constructor; rewrite <- ?E1, <- ?E2, <- ?E3, <- ?E4, <- ?E5, <- ?E6; assumption.
+    unfold core. intros E HR. injection E as E1 E2 E3 E4 E5 E6 E7. destruct HR.
+    constructor; unfold ann_phase in *; rewrite <- ?E1, <- ?E2, <- ?E3, <- ?E4, <- ?E5, <- ?E6, <- ?E7; assumption.
   Qed.
 
   (** clearing [mp_raa] (or keeping it) never hurts *)
   Lemma R_mpraa_weaken s s' g :
-    (holder_next s, cp_next s, cp_cur_point s, cp_next_point s, closed s) =
-    (holder_next s', cp_next s', cp_cur_point s', cp_next_point s', closed s') ->
+    (holder_next s, cp_next s, cp_cur_point s, cp_next_point s, closed s, hsk s) =
+    (holder_next s', cp_next s', cp_cur_point s', cp_next_point s', closed s', hsk s') ->
     (mp_raa s' = true -> mp_raa s = true \/ holder_next s < INITIAL - 1) ->
     R s g -> R s' g.
   Proof.
-    intros E Hm HR. injection E as E1 E2 E4 E5 E6. destruct HR.
-    constructor; rewrite <- ?E1, <- ?E2, <- ?E4, <- ?E5, <- ?E6; try assumption.
+    intros E Hm HR. injection E as E1 E2 E4 E5 E6 E7. destruct HR.
+    constructor; unfold ann_phase in *; rewrite <- ?E1, <- ?E2, <- ?E4, <- ?E5, <- ?E6, <- ?E7; try assumption.
     intros Hc Hm'. destruct (Hm Hm'); auto.
   Qed.
 
@@ -101,7 +115,7 @@ Section Proofs.
   Proof.
     intros Hc Hv Hn. unfold close. cbn [fst snd]. rewrite chk_all_app, Hc. cbn [chk_all chk].
     rewrite Hv, Z.eqb_refl. eexists. split; [reflexivity|].
-    constructor; sf; intros; try lia; try discriminate; reflexivity.
+    constructor; sf; intros; try lia; try discriminate; try reflexivity.
   Qed.
 
   Lemma restore_sim s g : closed s = false -> R s g ->
@@ -143,6 +157,9 @@ Section Proofs.
         by (destruct (p_signed g) eqn:E; [rewrite (R_signed _ _ HR) in Hc by reflexivity; discriminate|reflexivity])
     end.
 
+  Ltac cl := match goal with Hvh : p_vh ?g = holder_next ?s + 1 |- _ =>
+    apply (close_sim s g [] g); [reflexivity|exact Hvh|assumption] end.
+
   Lemma step_sim s g o : R s g ->
     exists g', chk_all g (snd (step s o)) = Some g' /\ R (fst (step s o)) g'.
   Proof.
@@ -151,56 +168,65 @@ Section Proofs.
       destruct o; cbn [fst snd chk_all]; try (exists g; split; [reflexivity|exact HR]).
       cbn [chk]. rewrite (R_vh _ _ HR), Z.eqb_refl. eexists. split; [reflexivity|].
       destruct HR. constructor; sf; intros; try assumption; try congruence. }
-    pose proof HR as HR0. destruct HR as [Hhn Hvh Hsg Hmp Hst Hrv Hcur Hnxt].
+    pose proof HR as HR0. destruct HR as [Hhn Hvh Hsg Hmp Hst Hrv Hcur Hnxt Hpre Hkeys Hflags].
     assert (Hsigned : p_signed g = false).
     { destruct (p_signed g) eqn:E; [rewrite Hsg in Hc by reflexivity; discriminate|reflexivity]. }
-    destruct o as [sync|valid need_cs sync|sec np chain_ok commit sync|sync| | |nl nr sc| | | ].
+    destruct o as [sync|sig_ok nsig nnd htlc_ok need_cs sync|sec np chain_ok commit sync|sync| |p| | | |nl nr sc| | | ].
     - (* OCommit *)
-      destruct (can_generate_new_commitment point s).
+      destruct (can_generate_new_commitment secret point s).
       + apply (maybe_restore_sim sync _ g g []); [exact Hc|reflexivity|].
         eapply R_core; [|exact HR0]. core_eq.
       + exists g. split; [reflexivity|exact HR0].
     - (* ORecvCS *)
-      destruct (disconnected s); [apply (close_sim s g [] g); [reflexivity|exact Hvh|exact Hhn]|].
-      destruct valid; cbn [negb]; [|apply (close_sim s g [] g); [reflexivity|exact Hvh|exact Hhn]].
+      destruct (chan_ready (hsk s)) eqn:Hready; cbn [negb]; [|cl].
+      destruct (disconnected s); [cl|].
+      destruct sig_ok; cbn [negb]; [|cl].
+      destruct (Z.eqb_spec nsig nnd) as [Ecnt|_]; cbn [negb]; [|cl].
+      destruct htlc_ok; cbn [negb]; [|cl].
       cbv zeta. sf. eapply maybe_restore_sim.
       + destruct (need_cs && negb (awaiting_rr s)); sf; reflexivity.
       + cbn [chk_all chk]. rewrite Hsigned, Hvh.
-        replace (holder_next s =? holder_next s + 1 - 1) with true by lia. reflexivity.
-      + assert (Hcl : forall b : bool, closed (if b then build_commitment point
-               (mkSt point (holder_next s - 1) (cp_next s) (awaiting_rr s) false (mon_in_progress s)
-                     (mp_raa s) (mp_cs s) false (cp_cur_point s) (cp_next_point s) false)
-             else (mkSt point (holder_next s - 1) (cp_next s) (awaiting_rr s) false (mon_in_progress s)
-                     (mp_raa s) (mp_cs s) false (cp_cur_point s) (cp_next_point s) false)) = false)
-          by (intros []; reflexivity).
-        destruct (need_cs && negb (awaiting_rr s)); constructor; sf; intros; try lia;
-          try discriminate; auto.
+        replace (holder_next s =? holder_next s + 1 - 1) with true by lia.
+        subst nsig. rewrite Z.eqb_refl. reflexivity.
+      + destruct (need_cs && negb (awaiting_rr s)); constructor; unfold ann_phase in *; sf; intros; try lia;
+          try discriminate; try congruence; auto.
     - (* ORecvRAA *)
-      destruct (disconnected s); [apply (close_sim s g [] g); [reflexivity|exact Hvh|exact Hhn]|].
-      destruct (Hcur Hc) as (pc & Epc & Apc). destruct (Hnxt Hc) as (pn & Epn & Apn). rewrite Epc.
-      destruct (point_eqb (pub sec) pc) eqn:Epq; cbn [negb];
-        [|apply (close_sim s g [] g); [reflexivity|exact Hvh|exact Hhn]].
+      destruct (chan_ready (hsk s)) eqn:Hready; cbn [negb]; [|cl].
+      destruct (disconnected s); [cl|].
+      assert (Hph : ann_phase s = true) by (unfold ann_phase; rewrite Hready; reflexivity).
+      destruct (Hcur Hc Hph) as (pc & Epc & Apc). destruct (Hnxt Hc Hph) as (pn & Epn & Apn). rewrite Epc.
+      destruct (point_eqb (pub sec) pc) eqn:Epq; cbn [negb]; [|cl].
       apply point_eqb_eq in Epq. subst pc.
-      destruct (awaiting_rr s); cbn [negb]; [|apply (close_sim s g [] g); [reflexivity|exact Hvh|exact Hhn]].
+      destruct (awaiting_rr s); cbn [negb]; [|cl].
       assert (Evr : chk g (ValidateRevocation (cp_next s + 1)) =
                     Some (mkPol point (p_vh g) (cp_next s + 1) (p_st g) (p_ann g) false)).
       { cbn [chk]. rewrite Hsigned, (Hrv Hc), (Hst Hc).
         replace (cp_next s + 1 =? cp_next s + 2 - 1) with true by lia. rewrite Z.eqb_refl. reflexivity. }
+      assert (Hfresh : existsb (fun kp : Z * point => fst kp =? cp_next s - 1) (p_ann g) = false).
+      { destruct (existsb _ (p_ann g)) eqn:E; [|reflexivity].
+        apply (Hkeys Hc) in E. rewrite Hph in E. lia. }
       destruct chain_ok; cbn [negb].
       + cbv zeta. sf. eapply maybe_restore_sim.
         * destruct commit; sf; reflexivity.
         * cbn [chk_all app]. rewrite Evr. cbn [chk p_signed p_rv p_st p_ann p_vh].
           rewrite Z.eqb_refl, (Hst Hc). replace (cp_next s + 2 =? cp_next s + 1 + 1) with true by lia.
-          rewrite Apc. cbn [andb]. reflexivity.
-        * assert (HRn : R (mkSt point (holder_next s) (cp_next s - 1) false false (mon_in_progress s)
-                                (mp_raa s) (mp_cs s) (raa_first s) (cp_next_point s) (Some np) false)
+          rewrite Apc. cbn [andb]. cbn [chk_all chk p_signed p_rv p_st p_ann p_vh]. rewrite Hfresh. reflexivity.
+        * set (h' := if cp_next s + 1 =? INITIAL - 1
+                     then mkHs secret true (our_ready (hsk s)) (their_ready (hsk s)) (wfb (hsk s)) (Some sec)
+                     else hsk s).
+          assert (Hr' : chan_ready h' = true) by (unfold h'; destruct (cp_next s + 1 =? INITIAL - 1); [reflexivity|exact Hready]).
+          assert (HRn : R (mkSt secret point (holder_next s) (cp_next s - 1) false false (mon_in_progress s)
+                                (mp_raa s) (mp_cs s) (raa_first s) (cp_next_point s) (Some np) false h')
                           (mkPol point (p_vh g) (cp_next s + 1) (cp_next s + 1)
                                  ((cp_next s - 1, np) :: p_ann g) false)).
-          { constructor; sf; intros; try lia; try discriminate; auto.
+          { constructor; unfold ann_phase; sf; rewrite ?Hr'; cbn [orb]; intros; try lia; try discriminate; try congruence; auto.
             - exists pn. split; [exact Epn|]. apply announced_cons_mono.
               replace (cp_next s - 1 + 1) with (cp_next s) by lia. exact Apn.
-            - exists np. split; [reflexivity|]. apply announced_cons_same. }
-          eapply R_core; [|exact HRn]. destruct commit; core_eq.
+            - exists np. split; [reflexivity|]. apply announced_cons_same.
+            - unfold has_key in *. cbn [existsb fst] in *.
+              destruct (Z.eqb_spec (cp_next s - 1) k); [lia|]. cbn [orb] in *.
+              match goal with H : existsb _ _ = true |- _ => apply (Hkeys Hc) in H; rewrite Hph in H end. lia. }
+          eapply R_core; [|exact HRn]. subst h'. destruct commit; core_eq.
       + eapply close_sim; [cbn [chk_all]; rewrite Evr; reflexivity|sf; exact Hvh|exact Hhn].
     - (* OMonUpdate *)
       apply (maybe_restore_sim sync _ g g []); [exact Hc|reflexivity|].
@@ -208,6 +234,60 @@ Section Proofs.
     - (* OMonitorDone *)
       destruct (mon_in_progress s); [apply restore_sim; assumption|].
       exists g. split; [reflexivity|exact HR0].
+    - (* ORecvChannelReady *)
+      unfold RevokeLog.recv_channel_ready.
+      destruct (disconnected s); [exists g; split; [reflexivity|exact HR0]|].
+      assert (Hrecon : exists g', chk_all g (snd (if opt_point_eqb point point_eqb
+                  (if cp_next s =? INITIAL - 1 then cp_next_point s
+                   else if cp_next s =? INITIAL - 2 then cp_cur_point s
+                   else match sec1 (hsk s) with Some sc => Some (pub sc) | None => None end) p
+                then (s, []) else close s [])) = Some g' /\
+               R (fst (if opt_point_eqb point point_eqb
+                  (if cp_next s =? INITIAL - 1 then cp_next_point s
+                   else if cp_next s =? INITIAL - 2 then cp_cur_point s
+                   else match sec1 (hsk s) with Some sc => Some (pub sc) | None => None end) p
+                then (s, []) else close s [])) g').
+      { destruct (opt_point_eqb _ _ _ _); [exists g; split; [reflexivity|exact HR0]|cl]. }
+      destruct (chan_ready (hsk s)) eqn:Hready; cbn [fst snd]; [exact Hrecon|].
+      destruct (their_ready (hsk s)) eqn:Htheir, (our_ready (hsk s)) eqn:Hour; cbn [andb negb fst snd];
+        try exact Hrecon.
+      + (* THEIR and OUR both set while awaiting: excluded *)
+        pose proof (Hflags Hc) as Hf. rewrite ?Hready, ?Hour, ?Htheir in Hf. destruct (Hf eq_refl eq_refl) as [_ Hx]. congruence.
+      + (* OUR_CHANNEL_READY only *)
+        pose proof (Hflags Hc) as Hf. rewrite ?Hready, ?Hour, ?Htheir in Hf. destruct (Hf eq_refl eq_refl) as [Hw _]. rewrite Hw. cbn [negb fst snd].
+        assert (Hph : ann_phase s = false) by (unfold ann_phase; rewrite Hready, Htheir; reflexivity).
+        destruct (Hpre Hc Hph) as (Hcn & pn & Epn & Apn).
+        assert (Hfresh : existsb (fun kp : Z * point => fst kp =? cp_next s) (p_ann g) = false).
+        { destruct (existsb _ (p_ann g)) eqn:E; [|reflexivity]. apply (Hkeys Hc) in E. rewrite Hph in E. lia. }
+        cbn [chk_all chk]. rewrite Hsigned, Hfresh. eexists. split; [reflexivity|].
+        constructor; unfold ann_phase; sf; cbn [chan_ready their_ready our_ready wfb orb]; intros; try lia; try discriminate; auto.
+        * exists pn. split; [exact Epn|]. apply announced_cons_mono. exact Apn.
+        * exists p. split; [reflexivity|]. apply announced_cons_same.
+        * unfold has_key in *. cbn [existsb fst] in *. destruct (Z.eqb_spec (cp_next s) k); [lia|]. cbn [orb] in *.
+          match goal with H : existsb _ _ = true |- _ => apply (Hkeys Hc) in H; rewrite Hph in H end. lia.
+      + (* no flag (or only WAITING_FOR_BATCH): the first channel_ready *)
+        assert (Hph : ann_phase s = false) by (unfold ann_phase; rewrite Hready, Htheir; reflexivity).
+        destruct (Hpre Hc Hph) as (Hcn & pn & Epn & Apn).
+        assert (Hfresh : existsb (fun kp : Z * point => fst kp =? cp_next s) (p_ann g) = false).
+        { destruct (existsb _ (p_ann g)) eqn:E; [|reflexivity]. apply (Hkeys Hc) in E. rewrite Hph in E. lia. }
+        cbn [chk_all chk]. rewrite Hsigned, Hfresh. eexists. split; [reflexivity|].
+        constructor; unfold ann_phase; sf; cbn [chan_ready their_ready our_ready wfb orb]; intros; try lia; try discriminate; auto.
+        * exists pn. split; [exact Epn|]. apply announced_cons_mono. exact Apn.
+        * exists p. split; [reflexivity|]. apply announced_cons_same.
+        * unfold has_key in *. cbn [existsb fst] in *. destruct (Z.eqb_spec (cp_next s) k); [lia|]. cbn [orb] in *.
+          match goal with H : existsb _ _ = true |- _ => apply (Hkeys Hc) in H; rewrite Hph in H end. lia.
+    - (* OOurChannelReady *)
+      cbv zeta. destruct (chan_ready (hsk s)) eqn:Hready; [exists g; split; [reflexivity|exact HR0]|].
+      destruct (our_ready (hsk s)) eqn:Hour, (their_ready (hsk s)) eqn:Htheir, (wfb (hsk s)) eqn:Hw;
+        cbn [andb negb fst snd chk_all]; try (exists g; split; [reflexivity|exact HR0]);
+        (exists g; split; [reflexivity|]);
+        constructor; unfold ann_phase in *; sf; rewrite ?Hready, ?Htheir, ?Hour in *;
+        cbn [chan_ready their_ready our_ready wfb orb] in *; intros; try lia; try discriminate; auto.
+    - (* OBatchReady *)
+      cbv zeta. cbn [fst snd chk_all]. exists g. split; [reflexivity|].
+      constructor; unfold ann_phase in *; sf; cbn [chan_ready their_ready our_ready wfb] in *; intros; try lia;
+        try discriminate; auto.
+      destruct (Hflags Hc ltac:(assumption) ltac:(assumption)). auto.
     - (* ODisconnect *)
       cbn [fst snd chk_all]. exists g. split; [reflexivity|]. eapply R_core; [|exact HR0]. core_eq.
     - (* ORecvReest *)
@@ -227,10 +307,14 @@ Section Proofs.
         [apply (close_sim s g [] g); [reflexivity|exact Hvh|exact Hhn]|].
       destruct (Z.ltb_spec (nr + 1) (INITIAL - (holder_next s + 1))) as [_|Hnr];
         [exists g; split; [reflexivity|exact HR0]|].
-      set (s0 := mkSt point (holder_next s) (cp_next s) (awaiting_rr s) false (mon_in_progress s)
-                      (mp_raa s) (mp_cs s) (raa_first s) (cp_cur_point s) (cp_next_point s) false).
+      set (s0 := mkSt secret point (holder_next s) (cp_next s) (awaiting_rr s) false (mon_in_progress s)
+                      (mp_raa s) (mp_cs s) (raa_first s) (cp_cur_point s) (cp_next_point s) false (hsk s)).
       assert (HR1 : R s0 g) by (eapply R_core; [|exact HR0]; core_eq).
       assert (Hc0 : closed s0 = false) by reflexivity.
+      destruct (chan_ready (hsk s)) eqn:Hready; cbn [negb].
+      2:{ destruct ((negb (our_ready (hsk s)) || mon_in_progress s) && negb (nr =? 0));
+            [apply (close_sim s0 g [] g); [reflexivity|exact Hvh|exact Hhn]|].
+          cbn [fst snd chk_all]. exists g. split; [reflexivity|exact HR1]. }
       (* required_revoke *)
       assert (Hrev : match reest_revoke secret point s0 nr (INITIAL - (holder_next s + 1)) with
                      | None => True
@@ -288,11 +372,11 @@ Section Proofs.
       apply (IH s' (log ++ evs) g1); [|exact HR1]. rewrite chk_all_app, Hl. exact Hg1.
   Qed.
 
-  Theorem policy_holds p0 p1 ops :
+  Theorem policy_holds batch p0 ops :
     exists g, chk_all (pol_init point)
-                (snd (run (init point p0 p1) (init_log secret point p0 p1) ops)) = Some g.
+                (snd (run (init secret point batch p0) (init_log secret point p0) ops)) = Some g.
   Proof.
-    destruct (R_init p0 p1) as (g0 & Hg0 & HR0).
+    destruct (R_init batch p0) as (g0 & Hg0 & HR0).
     destruct (run_sim ops _ _ g0 Hg0 HR0) as (g & Hg & _). exists g. exact Hg.
   Qed.
 
@@ -300,7 +384,7 @@ Section Proofs.
   (** * Part B: what acceptance by [chk_all] means *)
 
   Definition is_sign_holder (e : ev) : bool := match e with SignHolder _ => true | _ => false end.
-  Definition is_vh (e : ev) : bool := match e with ValidateHolder _ => true | _ => false end.
+  Definition is_vh (e : ev) : bool := match e with ValidateHolder _ _ _ => true | _ => false end.
   Definition is_store (e : ev) : bool := match e with StoreSecret _ _ => true | _ => false end.
   Definition is_vr (e : ev) : bool := match e with ValidateRevocation _ => true | _ => false end.
   Definition count (f : ev -> bool) (l : list ev) : Z := Z.of_nat (List.length (filter f l)).
@@ -314,7 +398,7 @@ Section Proofs.
   Lemma chk_inv g e g2 : chk g e = Some g2 ->
     match e with
     | SignHolder k => k = p_vh g /\ g2 = mkPol point (p_vh g) (p_rv g) (p_st g) (p_ann g) true
-    | ValidateHolder k => p_signed g = false /\ k = p_vh g - 1 /\
+    | ValidateHolder k nsig nnd => p_signed g = false /\ k = p_vh g - 1 /\ nsig = nnd /\
                           g2 = mkPol point k (p_rv g) (p_st g) (p_ann g) false
     | Release k => p_signed g = false /\ k = p_vh g + 1 /\ k <= INITIAL /\ g2 = g
     | SignCounterparty k => p_signed g = false /\ k = p_st g - 2 /\ g2 = g
@@ -323,7 +407,7 @@ Section Proofs.
     | StoreSecret k sec => p_signed g = false /\ k = p_rv g /\ p_st g = k + 1 /\
                            announced (p_ann g) k (pub sec) = true /\
                            g2 = mkPol point (p_vh g) (p_rv g) k (p_ann g) false
-    | Announce k p => p_signed g = false /\
+    | Announce k p => p_signed g = false /\ has_key (p_ann g) k = false /\
                       g2 = mkPol point (p_vh g) (p_rv g) (p_st g) ((k, p) :: p_ann g) false
     end.
   Proof.
@@ -383,14 +467,14 @@ Section Proofs.
 
   (** the latest validated number was validated in this log, unless it was validated before *)
   Lemma vh_witness : forall l g g', chk_all g l = Some g' ->
-    p_vh g' = p_vh g \/ In (ValidateHolder (p_vh g')) l.
+    p_vh g' = p_vh g \/ exists n, In (ValidateHolder (p_vh g') n n) l.
   Proof.
     induction l as [|e l IH]; intros g g' Hc; cbn [RevokeLog.chk_all] in Hc.
     - injection Hc as <-. left. reflexivity.
     - destruct (chk g e) as [g1|] eqn:E; [|discriminate].
-      destruct (IH _ _ Hc) as [Heq|Hin]; [|right; right; exact Hin].
+      destruct (IH _ _ Hc) as [Heq|(n & Hin)]; [|right; exists n; right; exact Hin].
       apply chk_inv in E. destruct e; try (left; rewrite Heq; intuition (subst; reflexivity)).
-      right. left. rewrite Heq. destruct E as (_ & -> & ->). reflexivity.
+      right. destruct E as (_ & -> & -> & ->). exists nnd. left. rewrite Heq. reflexivity.
   Qed.
 
   Lemma rv_witness : forall l g g', chk_all g l = Some g' ->
@@ -428,7 +512,24 @@ Section Proofs.
     - destruct (chk g e) as [g1|] eqn:E; [|discriminate]. apply chk_inv in E.
       destruct (IH _ _ Hc kp Hin) as [Hg1|Hl]; [|right; right; exact Hl].
       destruct e; try (left; intuition (subst; exact Hg1)).
-      destruct E as (_ & ->). cbn [p_ann] in Hg1. destruct Hg1 as [<-|Hg]; [right; left; reflexivity|left; exact Hg].
+      destruct E as (_ & _ & ->). cbn [p_ann] in Hg1. destruct Hg1 as [<-|Hg]; [right; left; reflexivity|left; exact Hg].
+  Qed.
+
+  (** announcements are recorded and never forgotten *)
+  Lemma ann_mono : forall l g g', chk_all g l = Some g' -> forall kp, In kp (p_ann g) -> In kp (p_ann g').
+  Proof.
+    induction l as [|e l IH]; intros g g' Hc kp Hin; cbn [RevokeLog.chk_all] in Hc.
+    - injection Hc as <-. exact Hin.
+    - destruct (chk g e) as [g1|] eqn:E; [|discriminate]. apply chk_inv in E.
+      apply (IH _ _ Hc). destruct e; try (intuition (subst; exact Hin)).
+      destruct E as (_ & _ & ->). right. exact Hin.
+  Qed.
+
+  Lemma ann_recorded : forall l g g' k p, chk_all g l = Some g' -> In (Announce k p) l -> In (k, p) (p_ann g').
+  Proof.
+    induction l as [|e l IH]; intros g g' k p Hc Hin; [destruct Hin|]. cbn [RevokeLog.chk_all] in Hc.
+    destruct (chk g e) as [g1|] eqn:E; [|discriminate]. destruct Hin as [->|Hin]; [|apply (IH _ _ _ _ Hc Hin)].
+    apply chk_inv in E. destruct E as (_ & _ & ->). apply (ann_mono _ _ _ Hc). left. reflexivity.
   Qed.
 
   Lemma announced_In a k p : announced a k p = true -> In (k, p) a.
@@ -445,7 +546,7 @@ Section Proofs.
     Hypothesis Hacc : chk_all (pol_init point) log = Some gfin.
 
     Lemma acc_release pre k post : log = pre ++ Release k :: post ->
-      In (ValidateHolder (k - 1)) pre /\
+      (exists n, In (ValidateHolder (k - 1) n n) pre) /\
       (forall k', ~ In (SignHolder k') pre) /\
       (forall k', In (SignHolder k') post -> k' < k) /\
       k = INITIAL + 1 - count is_vh pre.
@@ -488,12 +589,12 @@ Section Proofs.
       split; [|lia]. intros j Hj. apply (store_witness _ _ _ Hpre). cbn [pol_init p_st]. lia.
     Qed.
 
-    Lemma acc_validate_holder pre k post : log = pre ++ ValidateHolder k :: post ->
-      k = INITIAL - 1 - count is_vh pre.
+    Lemma acc_validate_holder pre k nsig nnd post : log = pre ++ ValidateHolder k nsig nnd :: post ->
+      k = INITIAL - 1 - count is_vh pre /\ nsig = nnd.
     Proof.
       intros ->. destruct (chk_all_split _ _ _ _ _ Hacc) as (g1 & g2 & Hpre & He & Hpost).
-      apply chk_inv in He. destruct He as (Hs & Hk & ->).
-      destruct (chk_all_counts _ _ _ Hpre) as (Hv & _ & _). cbn [pol_init p_vh] in Hv. lia.
+      apply chk_inv in He. destruct He as (Hs & Hk & Hn & ->).
+      destruct (chk_all_counts _ _ _ Hpre) as (Hv & _ & _). cbn [pol_init p_vh] in Hv. split; [lia|exact Hn].
     Qed.
 
     Lemma acc_validate_revocation pre k post : log = pre ++ ValidateRevocation k :: post ->
@@ -502,6 +603,17 @@ Section Proofs.
       intros ->. destruct (chk_all_split _ _ _ _ _ Hacc) as (g1 & g2 & Hpre & He & Hpost).
       apply chk_inv in He. destruct He as (Hs & Hk & Heq & ->).
       destruct (chk_all_counts _ _ _ Hpre) as (_ & Hst & Hrv). cbn [pol_init p_st p_rv] in *. lia.
+    Qed.
+
+    Lemma acc_announce pre k p post : log = pre ++ Announce k p :: post ->
+      forall p', ~ In (Announce k p') pre.
+    Proof.
+      intros -> p' Hin. destruct (chk_all_split _ _ _ _ _ Hacc) as (g1 & g2 & Hpre & He & Hpost).
+      apply chk_inv in He. destruct He as (_ & Hfresh & _).
+      pose proof (ann_recorded _ _ _ _ _ Hpre Hin) as Hrec.
+      unfold has_key in Hfresh. assert (Ht : existsb (fun kp : Z * point => fst kp =? k) (p_ann g1) = true).
+      { apply existsb_exists. exists (k, p'). split; [exact Hrec|]. apply Z.eqb_refl. }
+      congruence.
     Qed.
 
     Lemma acc_store pre k sec post : log = pre ++ StoreSecret k sec :: post ->
@@ -525,7 +637,7 @@ Section Proofs.
   (** * The reestablish decision table: the channel resumes only from {ours, ours - 1} *)
 
   Lemma reest_resumes_only_adjacent s nl nr sc :
-    closed s = false -> disconnected s = true ->
+    closed s = false -> disconnected s = true -> chan_ready (hsk s) = true ->
     let s' := fst (step s (ORecvReest nl nr sc)) in
     let evs := snd (step s (ORecvReest nl nr sc)) in
     let our := INITIAL - (holder_next s + 1) in
@@ -537,7 +649,7 @@ Section Proofs.
     (forall e, In e evs -> (e = Release (holder_next s + 2) /\ nr + 1 = our) \/
                            (e = SignCounterparty (cp_next s) /\ nl = ncp - 1)).
   Proof.
-    intros Hc Hd. cbv zeta. unfold step. rewrite Hc, Hd. cbn [negb].
+    intros Hc Hd Hready. cbv zeta. unfold step. rewrite Hc, Hd. cbn [negb].
     destruct ((nl <? 0) || (nr <? 0)) eqn:Hrange; [cbn [fst snd]; congruence|].
     destruct ((nl =? 0) || (INITIAL <=? nl) || (INITIAL <=? nr)); [cbn [fst snd closed close]; discriminate|].
     destruct ((0 <? nr) && match sc with SecGarbage => true | _ => false end) eqn:Hg;
@@ -548,7 +660,7 @@ Section Proofs.
               && negb match sc with SecMatch => true | _ => false end) eqn:Hsec;
       [cbn [fst snd closed close]; discriminate|].
     destruct (Z.ltb_spec (nr + 1) (INITIAL - (holder_next s + 1))) as [_|Hnr]; [cbn [fst snd]; congruence|].
-    unfold reest_revoke. sf.
+    rewrite Hready. cbn [negb]. unfold reest_revoke. sf.
     assert (Hsc : nr = 0 \/ sc = SecMatch).
     { destruct (Z.eq_dec nr 0); [left; assumption|right].
       destruct sc; try reflexivity; exfalso.
@@ -577,44 +689,75 @@ Section Proofs.
       + intros e [<-|[<-|[]]]; [left|right]; split; auto.
   Qed.
 
+  (** * A re-sent channel_ready never replaces the peer's points, in ANY funding-flag state
+
+      Once the peer's channel_ready has been taken into account (the channel is [ChannelReady], or it
+      is [AwaitingChannelReady] with [THEIR_CHANNEL_READY] and without [OUR_CHANNEL_READY] -- with or
+      without [WAITING_FOR_BATCH]), another channel_ready, whatever point it carries and whatever
+      the other flags are, leaves both stored points untouched, announces nothing, and either is a
+      no-op or closes the channel. *)
+  Lemma channel_ready_points_immutable s p :
+    closed s = false ->
+    (chan_ready (hsk s) = true \/ (their_ready (hsk s) = true /\ our_ready (hsk s) = false)) ->
+    let s' := fst (step s (ORecvChannelReady p)) in
+    let evs := snd (step s (ORecvChannelReady p)) in
+    cp_cur_point s' = cp_cur_point s /\ cp_next_point s' = cp_next_point s /\ hsk s' = hsk s /\
+    (forall k q, ~ In (Announce k q) evs) /\
+    (closed s' = false -> s' = s /\ evs = []).
+  Proof.
+    intros Hc Hph. cbv zeta. unfold step. rewrite Hc. unfold RevokeLog.recv_channel_ready.
+    destruct (disconnected s); [cbn [fst snd]; repeat split; auto; intros k q []|].
+    assert (E : fst (if chan_ready (hsk s) then (true, hsk s)
+                     else if their_ready (hsk s) && negb (our_ready (hsk s)) then (true, hsk s)
+                     else if negb (their_ready (hsk s)) && negb (our_ready (hsk s))
+                          then (false, mkHs secret false false true (wfb (hsk s)) (sec1 (hsk s)))
+                     else if our_ready (hsk s) && negb (their_ready (hsk s)) && negb (wfb (hsk s))
+                          then (false, mkHs secret true false false false (sec1 (hsk s)))
+                     else (false, hsk s)) = true).
+    { destruct Hph as [->|[-> ->]]; [reflexivity|]. destruct (chan_ready (hsk s)); reflexivity. }
+    rewrite E. destruct (opt_point_eqb _ _ _ _); cbn [fst snd close]; sf.
+    - repeat split; auto; try (intros k q []).
+    - repeat split; auto; try discriminate; try (intros k q [H|[]]; discriminate H).
+  Qed.
+
   (* ---------------------------------------------------------------------------------------- *)
   (** * Statements about every run of the machine *)
 
-  Definition machine_log (p0 p1 : point) (ops : list op) : list ev :=
-    snd (run (init point p0 p1) (init_log secret point p0 p1) ops).
+  Definition machine_log (batch : bool) (p0 : point) (ops : list op) : list ev :=
+    snd (run (init secret point batch p0) (init_log secret point p0) ops).
 
-  Lemma run_release_after_newer p0 p1 ops pre k post :
-    machine_log p0 p1 ops = pre ++ Release k :: post ->
-    In (ValidateHolder (k - 1)) pre /\
+  Lemma run_release_after_newer batch p0 ops pre k post :
+    machine_log batch p0 ops = pre ++ Release k :: post ->
+    (exists n, In (ValidateHolder (k - 1) n n) pre) /\
     (forall k', ~ In (SignHolder k') pre) /\
     (forall k', In (SignHolder k') post -> k' < k).
   Proof.
-    intros E. destruct (policy_holds p0 p1 ops) as (g & Hg).
+    intros E. destruct (policy_holds batch p0 ops) as (g & Hg).
     destruct (acc_release _ _ Hg pre k post E) as (H1 & H2 & H3 & _). auto.
   Qed.
 
-  Lemma run_sign_holder_unrevoked p0 p1 ops pre k post :
-    machine_log p0 p1 ops = pre ++ SignHolder k :: post ->
+  Lemma run_sign_holder_unrevoked batch p0 ops pre k post :
+    machine_log batch p0 ops = pre ++ SignHolder k :: post ->
     (forall j, In (Release j) pre -> k < j) /\
     (forall e, In e post -> exists k', e = SignHolder k').
   Proof.
-    intros E. destruct (policy_holds p0 p1 ops) as (g & Hg).
+    intros E. destruct (policy_holds batch p0 ops) as (g & Hg).
     destruct (acc_sign_holder _ _ Hg pre k post E) as (_ & H2 & H3). split; [exact H2|].
     intros e Hin. specialize (H3 e Hin). destruct e; try discriminate. eexists; reflexivity.
   Qed.
 
-  Lemma run_single_outstanding p0 p1 ops pre k post :
-    machine_log p0 p1 ops = pre ++ SignCounterparty k :: post ->
+  Lemma run_single_outstanding batch p0 ops pre k post :
+    machine_log batch p0 ops = pre ++ SignCounterparty k :: post ->
     forall j, k + 2 <= j <= INITIAL -> exists sec, In (StoreSecret j sec) pre.
   Proof.
-    intros E. destruct (policy_holds p0 p1 ops) as (g & Hg).
+    intros E. destruct (policy_holds batch p0 ops) as (g & Hg).
     exact (proj1 (acc_sign_counterparty _ _ Hg pre k post E)).
   Qed.
 
-  Lemma run_step_by_one p0 p1 ops pre e post :
-    machine_log p0 p1 ops = pre ++ e :: post ->
+  Lemma run_step_by_one batch p0 ops pre e post :
+    machine_log batch p0 ops = pre ++ e :: post ->
     match e with
-    | ValidateHolder k => k = INITIAL - 1 - count is_vh pre
+    | ValidateHolder k nsig nnd => k = INITIAL - 1 - count is_vh pre /\ nsig = nnd
     | Release k => k = INITIAL + 1 - count is_vh pre
     | SignHolder k => k = INITIAL - count is_vh pre
     | ValidateRevocation k => k = INITIAL - count is_vr pre /\ count is_store pre = count is_vr pre
@@ -623,9 +766,9 @@ Section Proofs.
     | Announce _ _ => True
     end.
   Proof.
-    intros E. destruct (policy_holds p0 p1 ops) as (g & Hg). destruct e.
+    intros E. destruct (policy_holds batch p0 ops) as (g & Hg). destruct e.
     - exact (proj2 (proj2 (proj2 (acc_release _ _ Hg _ _ _ E)))).
-    - exact (acc_validate_holder _ _ Hg _ _ _ E).
+    - exact (acc_validate_holder _ _ Hg _ _ _ _ _ E).
     - exact (proj2 (acc_sign_counterparty _ _ Hg _ _ _ E)).
     - exact (proj1 (acc_sign_holder _ _ Hg _ _ _ E)).
     - exact (acc_validate_revocation _ _ Hg _ _ _ E).
@@ -633,22 +776,30 @@ Section Proofs.
     - exact I.
   Qed.
 
-  Lemma run_secret_checked p0 p1 ops pre k sec post :
-    machine_log p0 p1 ops = pre ++ StoreSecret k sec :: post ->
+  Lemma run_secret_checked batch p0 ops pre k sec post :
+    machine_log batch p0 ops = pre ++ StoreSecret k sec :: post ->
     In (Announce k (pub sec)) pre /\ In (ValidateRevocation k) pre.
   Proof.
-    intros E. destruct (policy_holds p0 p1 ops) as (g & Hg).
+    intros E. destruct (policy_holds batch p0 ops) as (g & Hg).
     destruct (acc_store _ _ Hg _ _ _ _ E) as (H1 & H2 & _). auto.
   Qed.
 
+  (** the point of a commitment number is announced at most once: it can never be replaced *)
+  Lemma run_announce_once batch p0 ops pre k p post :
+    machine_log batch p0 ops = pre ++ Announce k p :: post ->
+    forall p', ~ In (Announce k p') pre.
+  Proof.
+    intros E. destruct (policy_holds batch p0 ops) as (g & Hg). exact (acc_announce _ _ Hg _ _ _ _ E).
+  Qed.
+
   (** the counters are the initial value minus the number of validated / stored events *)
-  Lemma run_counters p0 p1 ops :
-    let s := fst (run (init point p0 p1) (init_log secret point p0 p1) ops) in
-    let log := machine_log p0 p1 ops in
+  Lemma run_counters batch p0 ops :
+    let s := fst (run (init secret point batch p0) (init_log secret point p0) ops) in
+    let log := machine_log batch p0 ops in
     holder_next s = INITIAL - 1 - count is_vh log /\
     (closed s = false -> cp_next s = INITIAL - 1 - count is_store log).
   Proof.
-    cbv zeta. destruct (R_init p0 p1) as (g0 & Hg0 & HR0).
+    cbv zeta. destruct (R_init batch p0) as (g0 & Hg0 & HR0).
     destruct (run_sim ops _ _ g0 Hg0 HR0) as (g & Hg & HR). unfold machine_log.
     destruct (chk_all_counts _ _ _ Hg) as (Hv & Hst & _). cbn [pol_init p_vh p_st] in *.
     split.
@@ -679,14 +830,27 @@ Definition zstep := step Z Z (fun x => x) Z.eqb.
 
 Lemma unrecorded_counterparty_commitment_witness :
   exists (ops : list (op Z Z)) (nl nr : Z),
-    let '(s, log) := zrun (init Z 100 101) (init_log Z Z 100 101) ops in
+    let '(s, log) := zrun (init Z Z false 100) (init_log Z Z 100) ops in
     let '(s', evs) := zstep s (ORecvReest nl nr SecMatch) in
     closed s = false /\ awaiting_rr s = false /\ disconnected s = true /\
     ~ In (SignCounterparty (cp_next s)) log /\
     evs = [SignCounterparty (cp_next s)] /\
     closed s' = false /\ awaiting_rr s' = false /\ disconnected s' = false /\ cp_next s' = cp_next s.
 Proof.
-  exists [OCommit true; ORecvRAA 100 102 true false true; ORecvCS true false true; ODisconnect], 1, 1.
+  exists [OOurChannelReady; ORecvChannelReady 101; OCommit true; ORecvRAA 100 102 true false true;
+          ORecvCS true 0 0 true false true; ODisconnect], 1, 1.
   vm_compute. repeat split; try reflexivity.
   intros H. repeat (destruct H as [H|H]; [discriminate H|]). exact H.
 Qed.
+
+(* ------------------------------------------------------------------------------------------ *)
+(** * Source pins (coq/Gen/C05Pins.v is regenerated from channel.rs on every run)
+
+    The two comparisons the machine transliterates -- [negb (nsig =? nnd)] in [ORecvCS] and
+    [their_ready && negb our_ready] (flags with WAITING_FOR_BATCH cleared equal THEIR_CHANNEL_READY)
+    in [recv_channel_ready] -- are, in the source, exactly these. *)
+Lemma source_pins :
+  htlc_sig_count_test = "msg.htlc_signatures.len() != commitment_data.tx.nondust_htlcs().len()"%string /\
+  channel_ready_resend_test =
+    "flags.clone().clear(AwaitingChannelReadyFlags::WAITING_FOR_BATCH) == AwaitingChannelReadyFlags::THEIR_CHANNEL_READY"%string.
+Proof. split; reflexivity. Qed.
